@@ -10,6 +10,7 @@ import (
 	"sync"
 	"time"
 
+	cfg "github.com/tendermint/tendermint/config"
 	"github.com/tendermint/tendermint/crypto"
 	"github.com/tendermint/tendermint/crypto/ed25519"
 	sm "github.com/tendermint/tendermint/state"
@@ -188,7 +189,7 @@ func makeBlocks(w *world) []blockInfo {
 	return out
 }
 
-func cfgLine(w *world, correct []int) string {
+func cfgLine(w *world, correct []int, skew int64) string {
 	ps := make([]string, len(w.proposers))
 	for i, p := range w.proposers {
 		ps[i] = strconv.Itoa(p)
@@ -197,8 +198,12 @@ func cfgLine(w *world, correct []int) string {
 	for i, c := range correct {
 		cs[i] = strconv.Itoa(c)
 	}
-	return fmt.Sprintf("cfg n=%d powers=%s prios=%s prop=%d correct=%s proposers=%s invalid=%d ids=%d",
-		len(w.powers), intsKey(w.powers), intsKey(w.prios), w.prop, strings.Join(cs, ","), strings.Join(ps, ","), w.invalid(), w.nIDs())
+	def := cfg.DefaultConsensusConfig()
+	ms := func(d time.Duration) int64 { return int64(d / time.Millisecond) }
+	return fmt.Sprintf("cfg n=%d powers=%s prios=%s prop=%d correct=%s proposers=%s invalid=%d ids=%d tmo=%d,%d,%d,%d,%d,%d skew=%d",
+		len(w.powers), intsKey(w.powers), intsKey(w.prios), w.prop, strings.Join(cs, ","), strings.Join(ps, ","), w.invalid(), w.nIDs(),
+		ms(def.TimeoutPropose), ms(def.TimeoutProposeDelta), ms(def.TimeoutPrevote), ms(def.TimeoutPrevoteDelta),
+		ms(def.TimeoutPrecommit), ms(def.TimeoutPrecommitDelta), skew)
 }
 
 // reachable skewed validator sets: the chain's own recipe (state/execution.go updateState:
